@@ -302,7 +302,11 @@ func (h *Hist) randomEvent() string {
 	soft := int64(o.SoftDeleteGracePeriodDuration() / time.Second)
 	hard := int64(o.HardDeleteGracePeriodDuration() / time.Second)
 	cool := o.ScaleUpCoolDownPeriodDuration()
-	switch r.intn(22) {
+	ev := r.intn(22)
+	if focus == "cooldown" && r.chance(45) {
+		ev = r.pickI(10, 11, 12, 21, 4, 5, 6) // advances around the cool-down, load changes, taints and cordons inside the window
+	}
+	switch ev {
 	case 0, 1, 2, 3:
 		p, j := h.pctChoice(gi)
 		h.setLoad(gi, p, j)
@@ -451,6 +455,9 @@ func (h *Hist) randomEvent() string {
 		}
 	default:
 		p, j := h.pctChoice(gi)
+		if focus == "cooldown" && r.chance(60) {
+			p, j = o.ScaleUpThresholdPercent+r.rng(20, 200), 0
+		}
 		h.setLoad(gi, p, j)
 		return "load"
 	}
